@@ -16,8 +16,9 @@ if the response is complete: redirect or append an entry).
 
 Known finding kept in the model (C19-K1): a response cut short by the server closing
 (`framing = 3`) is never completed — `outcome = stuck`, `waited` stays true.
-The https→http refusal is `outcome = refused` (the code raises `ValueError` out of `service()`).
-A 3xx response without `Location` is `outcome = crashed` (`AttributeError`, F48 — not in C19's domain, never generated).
+The https→http refusal and a 3xx response without `Location` (tree after HttpParse's fix of F48/F49): `redirect()` raises,
+`serviceResponse` catches it and reports the redirect response itself as an errored entry with the history attached;
+nothing is sent to the target, the connection is kept and the queue moves on.
 -/
 namespace Hio.Http.Cli
 open Hio.Http
@@ -73,7 +74,7 @@ structure Sent where
   body : Bytes
 deriving Repr, DecidableEq
 
-inductive Outcome | running | refused | crashed | stuck
+inductive Outcome | running | stuck
 deriving Repr, DecidableEq
 
 structure St where
@@ -143,13 +144,18 @@ def handle (servers : List Server) (s : St) (rp : Resp) : St :=
   let s0 := { s with inflight := s.inflight - 1, pending := none,
                      alive := s.alive && !(rp.close || rp.framing == 2 || rp.framing == 3) }
   if isRedirect rp.status then
+    -- `.redirects.append(copy(response))`: the redirect response (with the request that drew it) joins the history
     let hop : Hop := ⟨rp.status, s.cur.path, s.latest⟩
-    let s1 := { s0 with redirects := s0.redirects ++ [hop], latest := none }
+    let sh := { s0 with redirects := s0.redirects ++ [hop] }
+    -- `redirect()` raised (no Location, or https → http): the redirect response itself is reported as an errored
+    -- entry with the history attached; nothing is sent and the connection is kept
+    let refuse := finish sh none [] true
+    let s1 := { sh with latest := none }
     match rp.loc with
-    | none => { s1 with outcome := .crashed }
+    | none => refuse
     | some l =>
       if l.port != s1.port || l.secure != s1.secure then
-        if s1.secure && !l.secure then { s1 with outcome := .refused }
+        if s1.secure && !l.secure then refuse
         else
           let s2 := { s1 with port := l.port, secure := l.secure, alive := (scriptOf servers l.port).isSome }
           transmit servers s2 ⟨s2.cur.method, l.path, []⟩
